@@ -311,7 +311,7 @@ func C09(c *ev.Ctx) {
 	imgDir := mustMkdir(filepath.Join(c.Scratch, "img"))
 
 	// (2) spec -> code: TLC-simulated behaviours replayed on all six targets
-	nb := c.Pick(400, 6000)
+	nb := c.Pick(400, 15000)
 	depth := c.Pick(30, 60)
 	cfg := fmt.Sprintf("CONSTANTS\n  N = 3\n  Val = {0, 1, 2, 3}\n  NBuf = 3\n  Probe <- MCProbe\n  D = %d\nINIT Init\nNEXT Next\nINVARIANTS EmitHist\n", depth)
 	_ = os.WriteFile(filepath.Join(dir, "SimDisk.cfg"), []byte(cfg), 0644)
@@ -369,7 +369,7 @@ func C09(c *ev.Ctx) {
 	c.Set("replayed_behaviours", replayed)
 
 	// (3) code -> spec: random driver histories validated by DiskTrace.tla
-	nh := c.Pick(60, 1200)
+	nh := c.Pick(60, 3000)
 	steps := c.Pick(80, 200)
 	var evs []map[string]any
 	segTarget := map[int]string{}
